@@ -188,7 +188,15 @@ def execute(plan, env):
     r = EoReader(bytes(out))
     for step, o in enumerate(ops):
         k = o[0]
-        if k in ("refused", "flush", "toggle"):
+        if k == "toggle":
+            # the receiver does the same to its reader (what every generated deserializer with a <chunked> section
+            # does to the reader it is given): chunked mode on and straight off again, nothing read in between
+            for _ in range(2 if o[1] == "on-off-twice" else 1):
+                if o[1] != "off":
+                    r.chunked_reading_mode = True
+                r.chunked_reading_mode = False
+            continue
+        if k in ("refused", "flush"):
             continue
         try:
             if k == "byte":
